@@ -117,6 +117,9 @@ func (fs *ChrootFs) Rename(oldname, newname string) error {
 		if err != nil {
 			return err
 		}
+		if err := fs.openAllowed(newFile); err != nil {
+			return err
+		}
 		return fs.fs.Rename(fixedPath, newFile)
 	})
 }
